@@ -294,6 +294,26 @@ func boundaryPrograms() []string {
 		sb.WriteString("}\n}\nout = 5\n")
 		out = append(out, sb.String())
 	}
+	// functions WITHOUT a final return whose last instructions carry every small operand value (added after
+	// C02-m7: "ends in a return" decided from the second-last byte, which is 21 = OpReturn for global/local #21
+	// or the operator &^): selector assignment to global / local k, bare read of global / local k, every binary
+	// operator as the last expression statement
+	{
+		var gdecl, ldecl strings.Builder
+		for i := 0; i <= 40; i++ {
+			fmt.Fprintf(&gdecl, "g%d := {n: %d}\n", i, i)
+			fmt.Fprintf(&ldecl, " l%d := {n: %d}\n", i, i)
+		}
+		for k := 0; k <= 40; k++ {
+			out = append(out, gdecl.String()+fmt.Sprintf("f := func(v) { g%d.n = v }\nr := f(7)\nout := g%d.n\n", k, k))
+			out = append(out, gdecl.String()+fmt.Sprintf("f := func(v) { g%d.n.m = v }\nh := func() { g%d }\nr := h()\n", k, k))
+			out = append(out, fmt.Sprintf("f := func(v) {\n%s l%d.n = v\n}\nr := f(7)\n", ldecl.String(), k))
+			out = append(out, fmt.Sprintf("f := func(v) {\n%s l%d\n}\nr := f(7)\n", ldecl.String(), k))
+		}
+		for _, op := range []string{"+", "-", "*", "/", "%", "&", "|", "^", "&^", "<<", ">>", "<", ">", "<=", ">=", "==", "!="} {
+			out = append(out, "f := func(a, b) { a "+op+" b }\nr := f(6, 3)\n")
+		}
+	}
 	// jumps across the 64 KiB mark: in main and inside a function literal
 	var body strings.Builder
 	for i := 0; i < 11500; i++ {
